@@ -303,7 +303,8 @@ OpLabels(st, c, o, Vals, MaxLen, MaxCnt, Its, RLens, Alias, Near) ==
       [] o = "ctorCount"    -> {Lbl(o, c, 0, 0, n, 0, 0, "", <<>>) : n \in CtorCnts}
       [] o = "ctorCountVal" -> {Lbl(o, c, 0, 0, n, v, 0, "", <<>>) : n \in CtorCnts, v \in Vals}
       \* more elements than an 8-bit size_type can count (swap2 with a vector whose SIZE does not fit the other's size_type)
-      [] o = "ctorCountBig" -> IF Flav[c] # "fixed" /\ MaxSz[c] >= BigCap THEN {Lbl(o, c, 0, 0, BigCap, 0, 0, "", <<>>)} ELSE {}
+      [] o = "ctorCountBig" -> IF Flav[c] # "fixed" /\ MaxSz[c] >= BigCap /\ (\E e \in Slots \ {c} : Flav[e] # "fixed" /\ MaxSz[e] < BigCap)
+                               THEN {Lbl(o, c, 0, 0, BigCap, 0, 0, "", <<>>)} ELSE {}
       [] o = "ctorRange"    -> {Lbl(o, c, 0, 0, 0, 0, 0, it, vs) : it \in Its, vs \in {r \in Ranges : Fits(Len(r))}}
       [] o = "ctorIlist"    -> {Lbl(o, c, 0, 0, 0, 0, 0, "", vs) : vs \in {r \in Ranges : Fits(Len(r))}}
       [] o \in {"ctorCopy", "ctorMove"} -> {Lbl(o, c, d, 0, 0, 0, 0, "", <<>>) : d \in Same \ {c}}
